@@ -59,7 +59,8 @@ theorem taproot_precomputed {S : Bytes → Bytes} {tx : Tx} {prevouts : List TxO
 theorem taproot_ok_defined {S : Bytes → Bytes} {tx : Tx} {i : Int} {prevouts : List TxOut} {ht extFlag : Int}
     {annex msgExt : Bytes} {pre : Option Precomputed} {d : Bytes}
     (h : taproot S tx i prevouts ht extFlag annex msgExt pre = .ok d) :
-    0 ≤ i ∧ i < tx.vin.length ∧ intMem ht Gen.SigHash.SIG_HASH_TYPES = true ∧
+    0 ≤ i ∧ i < tx.vin.length ∧ prevouts.length = tx.vin.length ∧
+      intMem ht Gen.SigHash.SIG_HASH_TYPES = true ∧
       ¬ (tapSingle ht.toNat = true ∧ i.toNat ≥ tx.vout.length) := by
   unfold taproot at h
   obtain ⟨_, _, h⟩ := bind_ok h
@@ -67,10 +68,13 @@ theorem taproot_ok_defined {S : Bytes → Bytes} {tx : Tx} {i : Int} {prevouts :
   obtain ⟨h0, h1, rfl⟩ := assertVin_ok hn
   split at h
   · cases h
-  · next hm =>
+  · next hl =>
     split at h
     · cases h
-    · next hs => exact ⟨h0, h1, by simpa using hm, hs⟩
+    · next hm =>
+      split at h
+      · cases h
+      · next hs => exact ⟨h0, h1, by simpa using hl, by simpa using hm, hs⟩
 
 /-- T3 (legacy, BIP143): an input index outside the transaction is refused -/
 theorem legacy_ok_index {S : Bytes → Bytes} {sc : Bytes} {tx : Tx} {i ht : Int} {d : Bytes}
